@@ -266,6 +266,15 @@ theorem applyFilters_eq_filter_all (fs : List (Str × Str)) (ls : List Link) :
     intro l _
     simp only [List.all_cons]
 
+/-- what `render_get` filters: the generator's links plus the optional impl-info link -/
+def wkcAll (links : List Link) (implInfo : Option Str) : List Link :=
+  links ++ (match implInfo with | some u => [implInfoLink u] | none => [])
+
+theorem wkcRender_eq (links : List Link) (implInfo : Option Str) (queries : List Str) :
+    wkcRender links implInfo queries =
+      applyFilters (queries.filterMap splitEq) (wkcAll links implInfo) := by
+  cases implInfo <;> rfl
+
 -- reading an href back (RFC 3986 §3.3 path segments, §2.1 percent-encoding) -------------------
 
 /-- every component is a byte string -/
